@@ -29,8 +29,9 @@ var c12Scenarios = []string{
 	"two-writers-around-one-flush",              // G13
 	"writer-registers-while-flush-after-commit", // G14
 	"register-then-workless-flush",
-	"write-lands-between-index-flush-and-sync", // SyncOnFlush: a commit that is followed by index work before it syncs
-	"writer-after-resumed-handover",            // a collector cycle picked up the hand-over file an interrupted cycle left
+	"write-lands-between-index-flush-and-sync",     // SyncOnFlush: a commit that is followed by index work before it syncs
+	"writer-after-resumed-handover",                // a collector cycle picked up the hand-over file an interrupted cycle left
+	"writer-after-collector-met-unreadable-header", // collector cycles that fail (header unreadable for a moment) must leave the flush path usable
 	"stress",
 }
 
@@ -43,7 +44,7 @@ func init() {
 		Run:             runC12,
 		CaseTimeout:     2 * time.Minute,
 		HangIsViolation: true,
-		Rule: "store opened with BurstRate(1) and the measured flush rate forced to 1e-9 before every write (verif accessor), so every Put/Remove enters the waiting path. Gated scenarios park the writer at store.flushtick.decided / .registered / .before-block and the flusher at store.flush.after-commit and drive explicit Flush calls in each order (a flush completing between decision and registration followed only by work-less flushes - single writer with and without the started flusher; two writers around one flush; registration while a flush is between commit and notice close; registration followed by a work-less flush; with SyncOnFlush, a writer's index update landing while a commit is parked between its index flush and its syncs; a writer arriving after a collector cycle resumed the hand-over file that a cancelled cycle had left behind); stress cases run 1-6 writers with the periodic flusher (1 ms - 1 h) and/or an explicit flushing goroutine under noise delays at the flushTick/Flush/commit hooks, half of them with the background collectors at 1-3 ms on 100-400 byte primary files, so that records of the writers' keys are relocated while the writers wait (half of those with a 50 us cycle time limit, so that cycles are cut short and resumed); a third of all cases open the store with SyncOnFlush(true). Oracle: every notice channel handed over by the registered hook must be closed when a Flush() that the harness started after that hook event has returned nil (non-blocking receive); at the end no client goroutine is parked in flushTick; a harness Flush that does not return within 30 s is reported with the goroutine profile (deadlocked flush path). " +
+		Rule: "store opened with BurstRate(1) and the measured flush rate forced to 1e-9 before every write (verif accessor), so every Put/Remove enters the waiting path. Gated scenarios park the writer at store.flushtick.decided / .registered / .before-block and the flusher at store.flush.after-commit and drive explicit Flush calls in each order (a flush completing between decision and registration followed only by work-less flushes - single writer with and without the started flusher; two writers around one flush; registration while a flush is between commit and notice close; registration followed by a work-less flush; with SyncOnFlush, a writer's index update landing while a commit is parked between its index flush and its syncs; a writer arriving after a collector cycle resumed the hand-over file that a cancelled cycle had left behind; a writer arriving after collector cycles that failed because the header files were unreadable for a moment); stress cases run 1-6 writers with the periodic flusher (1 ms - 1 h) and/or an explicit flushing goroutine under noise delays at the flushTick/Flush/commit hooks, half of them with the background collectors at 1-3 ms on 100-400 byte primary files, so that records of the writers' keys are relocated while the writers wait (half of those with a 50 us cycle time limit, so that cycles are cut short and resumed); a third of all cases open the store with SyncOnFlush(true). Oracle: every notice channel handed over by the registered hook must be closed when a Flush() that the harness started after that hook event has returned nil (non-blocking receive); at the end no client goroutine is parked in flushTick; a harness Flush that does not return within 30 s is reported with the goroutine profile (deadlocked flush path). " +
 			"non-trivial iff >=1 write registered for a notice and a flush completed after it; distinct = scenario x observed order of (flushtick, flush) hook events",
 		Assumptions: []string{
 			"flush failures are not injected ('as long as flushes keep succeeding')",
@@ -66,7 +67,7 @@ func runC12(c run.Ctx) *core.CaseResult {
 		cfg.PrimaryFileSize = []uint32{100, 200, 400}[r.IntN(3)]
 		cfg.IndexFileSize = 100
 	}
-	if r.IntN(4) == 0 && scen != "writer-after-resumed-handover" {
+	if r.IntN(4) == 0 && scen != "writer-after-resumed-handover" && scen != "writer-after-collector-met-unreadable-header" {
 		cfg.Primary = gen.CID
 	}
 	env, err := core.NewEnv(cfg)
@@ -105,6 +106,9 @@ func runC12(c run.Ctx) *core.CaseResult {
 	}
 	if scen == "writer-after-resumed-handover" {
 		opts = append(opts, store.GCInterval(time.Hour)) // collector present, cycles driven by the scenario
+	}
+	if scen == "writer-after-collector-met-unreadable-header" {
+		opts = append(opts, store.GCInterval(time.Millisecond))
 	}
 	withGC := scen == "stress" && cfg.Primary == gen.MH && c.Index%12 < 6
 	if withGC {
@@ -284,6 +288,38 @@ func runC12(c run.Ctx) *core.CaseResult {
 				flush() // ... but the next completed one must
 			}
 			checkReleased("registration while a flush was between commit and notice close")
+		case "writer-after-collector-met-unreadable-header":
+			for i := 0; i < 4; i++ {
+				s.VerifSetFlushRate(1e15)
+				s.Put(append([]byte{}, u.Keys[i%len(u.Keys)].Raw...), gen.Value(uint64(900+i), 30))
+			}
+			flush()
+			// the header files cannot be read for a few collector cycles (a transient fault), then they can again
+			hdrs := []string{env.IndexPath + ".info", env.DataPath + ".info"}
+			i0, p0 := rt.Count("index.gc.cycle.start"), rt.Count("mh.gc.cycle.start")
+			for _, h := range hdrs {
+				os.Rename(h, h+".away")
+			}
+			okI := waitCount(rt, "index.gc.cycle.start", i0+3, gateT)
+			okP := waitCount(rt, "mh.gc.cycle.start", p0+3, gateT)
+			for _, h := range hdrs {
+				os.Rename(h+".away", h)
+			}
+			if !okI || !okP {
+				inconclusive("the collectors did not run three cycles while the headers were away")
+				break
+			}
+			res.Flag("window-attained")
+			wg.Add(1)
+			go func() { defer wg.Done(); write(0); close(writerDone) }()
+			if !waitCount(rt, "store.flushtick.before-block", 1, gateT) {
+				inconclusive("writer did not reach the block point")
+				break
+			}
+			for i := 0; i < 3; i++ {
+				flush()
+			}
+			checkReleased("writer after collector cycles that could not read their header")
 		case "writer-after-resumed-handover":
 			mp := core.MH(s)
 			if mp == nil {
